@@ -350,6 +350,11 @@ class VersionConverter(object):
                        omitted elements and value contents.
         """
         for val_elem in value.iter():
+            # Comments, processing instructions and entity references are no
+            # odML content; their 'tag' is not a string.
+            if not isinstance(val_elem.tag, str):
+                continue
+
             if val_elem.tag != "value":
                 # Check whether current Value attribute has already been exported
                 # under its own or a different name. Give a warning, if the values differ.
